@@ -86,6 +86,15 @@ func catalogue() []mistake {
 		{"func 2 params: callback second parameter of different size", func(b *mocker.Builder) error { b.Func(hw.F2p).Apply(func(a int, x int16) int { return 1 }); return nil }},
 		{"func 2 params: When with too few arguments", func(b *mocker.Builder) error { b.Func(hw.F2p).When(1).Return(5); return nil }},
 		{"func 2 results: Return with too few values", func(b *mocker.Builder) error { b.Func(hw.R2).Return(5); return nil }},
+		// zero of n, handed over as the spread of an empty (non-nil) list - a table of conditions sliced down to nothing
+		{"func 2 params: When with an empty list of arguments", func(b *mocker.Builder) error {
+			b.Func(hw.F2p).When([]interface{}{}...).Return(5)
+			return nil
+		}},
+		{"func 2 results: Return with an empty list of values", func(b *mocker.Builder) error {
+			b.Func(hw.R2).Return([]interface{}{}...)
+			return nil
+		}},
 		{"func 2 results: callback with one result", func(b *mocker.Builder) error { b.Func(hw.R2).Apply(func(a int) int { return a }); return nil }},
 		{"func 2 results: second return value of different size", func(b *mocker.Builder) error { b.Func(hw.R2).Return(5, "x"); return nil }},
 		{"func: return value smaller than the result", func(b *mocker.Builder) error { b.Func(hw.F0).Return(int8(1)); return nil }},
@@ -209,6 +218,20 @@ func catalogue() []mistake {
 			return nil
 		}},
 		{"interface: Return before As", func(b *mocker.Builder) error { b.Interface(&hw.X).Method("B").Return(1); return nil }},
+		// the same stub mistakes through As(..).Return: the stub is only checked against the interface when the
+		// first clause is installed
+		{"interface: As(stub without parameters after the context).Return", func(b *mocker.Builder) error {
+			b.Interface(&hw.X).Method("B").As(func(ctx *mocker.IContext) int { return 0 }).Return(1)
+			return nil
+		}},
+		{"interface: As(stub whose first parameter is not the context).Return", func(b *mocker.Builder) error {
+			b.Interface(&hw.X).Method("B").As(func(a int, x int) int { return 0 }).Return(1)
+			return nil
+		}},
+		{"interface: As(stub with one result too many).Return", func(b *mocker.Builder) error {
+			b.Interface(&hw.X).Method("B").As(func(ctx *mocker.IContext, a int) (int, int) { return 0, 0 }).Return(1, 1)
+			return nil
+		}},
 		{"var: non-pointer", func(b *mocker.Builder) error { b.Var(hw.PlainVar).Set(1); return nil }},
 		{"var: Apply with a non-function", func(b *mocker.Builder) error { b.Var(&hw.PlainVar).Apply(42); return nil }},
 		{"unexported var: unknown name", func(b *mocker.Builder) error { b.UnExportedVar("verifh/targets/hw.nope").Set(1); return nil }},
